@@ -128,7 +128,21 @@ fn sized_program(n: usize, kind: usize, no_std: bool) -> String {
         // n if statements in one function
         4 => format!("{}start :: fn do\n    a := 1\n{}end\n", hdr, (0..n).map(|i| format!("    if a == {} do\n        print({})\n    end\n", i, i)).collect::<String>()),
         // one expression with n operands
-        _ => format!("{}start :: fn do\n    a := 1\n    print({})\nend\n", hdr, (0..n).map(|i| format!("a * {}", i)).collect::<Vec<_>>().join(" + ")),
+        5 => format!("{}start :: fn do\n    a := 1\n    print({})\nend\n", hdr, (0..n).map(|i| format!("a * {}", i)).collect::<Vec<_>>().join(" + ")),
+        // one if with n - 1 elif branches
+        6 => format!(
+            "{}pick :: fn a: int -> int\n    if a == 0 do\n        0\n{}    else do\n        -1\n    end\nend\nstart :: fn do\n    print(pick(1))\nend\n",
+            hdr,
+            (1..n).map(|i| format!("    elif a == {} do\n        {}\n", i, i * 3)).collect::<String>()
+        ),
+        // an enum with n variants and a case that lists them all
+        _ => format!(
+            "{}Wide :: enum\n{}end\nwhich :: fn e: Wide -> int\n    case e do\n{}    end\nend\nstart :: fn do\n    print(which(Wide.V0))\n    print(which(Wide.V{}))\nend\n",
+            hdr,
+            (0..n).map(|i| format!("    V{},\n", i)).collect::<String>(),
+            (0..n).map(|i| format!("        V{} -> {} end\n", i, i * 3)).collect::<String>(),
+            n - 1
+        ),
     }
 }
 
@@ -207,11 +221,14 @@ pub fn run(run: &mut Run) {
     }
     let sizes: Vec<usize> = if thorough { vec![1, 10, 50, 60, 61, 62, 63, 64, 65, 66, 67, 68, 69, 70, 90, 95, 99, 100, 101, 110, 119, 120, 121, 150, 199, 200, 201, 250, 400] } else { vec![1, 10, 50, 64, 70, 99, 100, 101, 120, 199, 200, 201, 250] };
     for n in &sizes {
-        for kind in 0..6 {
+        for kind in 0..8 {
             for no_std in [true, false] {
                 let mut preds = vec![];
-                if *n >= 60 {
+                if *n >= 60 && kind < 6 {
                     preds.push("at-least-60-statements-or-definitions-in-one-function-or-file".to_string());
+                }
+                if *n >= 190 && kind >= 6 {
+                    preds.push("an-elif-or-case-chain-of-at-least-190-arms".to_string());
                 }
                 cases.push((format!("size:kind{}", kind), sized_program(*n, kind, no_std), no_std, None, preds));
             }
